@@ -80,6 +80,56 @@ theorem escape_cuts (n : Nat) (σ σ' : State) (sc : List Addr) (s₁ s₂ : Lis
   | cont l => exact this
   | ret v l => exact this
 
+/-- G6 in both directions: up to fuel, `s₁ ++ s₂` IS `s₁` followed — if it did not escape — by `s₂` in the resulting
+    state: every result other than a time-out that one side reaches (at some fuel) the other reaches too.  The direction
+    `seq_compose` does not give (whatever the two-step reading yields, the concatenation yields with `s₁.length` more
+    units of fuel) comes from the fuel-exact equation `stmts_append_exact`. -/
+theorem seq_compose_upto (σ : State) (sc : List Addr) (s₁ s₂ : List Stmt) :
+    FuelEq (fun n => evalStmts n σ sc (s₁ ++ s₂))
+      (fun n => thenStmts (evalStmts n σ sc s₁) fun σ' => evalStmts n σ' sc s₂) := by
+  intro r hr
+  constructor
+  · rintro ⟨k, hk⟩
+    refine ⟨k, ?_⟩
+    replace hk : evalStmts k σ sc (s₁ ++ s₂) = r := hk
+    show thenStmts (evalStmts k σ sc s₁) (fun σ' => evalStmts k σ' sc s₂) = r
+    rcases seq_compose k σ sc s₁ s₂ with h | h
+    · exact absurd (hk.symm.trans h) hr
+    · exact h.symm.trans hk
+  · rintro ⟨k, hk⟩
+    refine ⟨k + s₁.length, ?_⟩
+    show evalStmts (k + s₁.length) σ sc (s₁ ++ s₂) = r
+    replace hk : thenStmts (evalStmts k σ sc s₁) (fun σ' => evalStmts k σ' sc s₂) = r := hk
+    rw [stmts_append_exact]
+    simp only [thenStmts] at hk
+    cases h1 : evalStmts k σ sc s₁ with
+    | timeout => rw [h1] at hk; exact absurd hk.symm hr
+    | err e σ1 =>
+      rw [h1] at hk
+      rw [Seed.C07.fuel_stable (mono_stmts σ sc s₁) h1 (by simp) (Nat.le_add_right _ _)]
+      exact hk
+    | crash w σ1 =>
+      rw [h1] at hk
+      rw [Seed.C07.fuel_stable (mono_stmts σ sc s₁) h1 (by simp) (Nat.le_add_right _ _)]
+      exact hk
+    | ok esc σ1 =>
+      rw [h1] at hk
+      rw [Seed.C07.fuel_stable (mono_stmts σ sc s₁) h1 (by simp) (Nat.le_add_right _ _)]
+      cases esc with
+      | none => simpa [Res.bind] using hk
+      | brk l => exact hk
+      | cont l => exact hk
+      | ret v l => exact hk
+
+/-- non-vacuity: `x := 1; x()` in a scope of its own — both readings reach the same (non-time-out) result at fuel 8 -/
+example :
+    let s₁ : List Stmt := [.Declare (.mk (.Var c!"x") (1, 1)) (.mk (.Int 1) (1, 6))]
+    let s₂ : List Stmt := [.Expr (.mk (.Call (.mk (.Var c!"x") (2, 1)) []) (2, 1))]
+    ∃ e σ', evalStmts 8 (State.init.alloc (.scope [])).2 [0] (s₁ ++ s₂) = .err e σ' ∧
+      thenStmts (evalStmts 8 (State.init.alloc (.scope [])).2 [0] s₁)
+        (fun σ' => evalStmts 8 σ' [0] s₂) = .err e σ' :=
+  ⟨_, _, by with_unfolding_all rfl, by with_unfolding_all rfl⟩
+
 /-! ### observational congruence for statement contexts -/
 
 /-- **Congruence, same result at every fuel.**  If `s` and `t` have the same result at every fuel, state and scope
